@@ -12,7 +12,8 @@ static inline struct BuildValue bv_make(int kind) { struct BuildValue v; v.kind 
 static inline struct BuildValue bv_existing(struct FileInfo info) { g_existing_info = info; struct BuildValue v; v.kind = BuildValue_Kind_ExistingInput; v.g_n = 1; return v; }
 static inline struct valuedata bv_to_data(const struct BuildValue *v) { struct valuedata d; d.kind = (int)v->kind; d.src = v; return d; }
 static inline struct BuildValue bv_from_data(struct valuedata d) { struct BuildValue v; v.kind = d.kind; v.g_n = 0; v.g_src = d.src; return v; }
-static inline void ti_complete(struct TaskInterface *ti, struct valuedata d, _Bool force) { g_completes++; g_complete_kind = d.kind; g_complete_force = force; }
+const void *g_complete_src;
+static inline void ti_complete(struct TaskInterface *ti, struct valuedata d, _Bool force) { g_completes++; g_complete_kind = d.kind; g_complete_src = d.src; g_complete_force = force; }
 /* Command::getResultForOutput(node, value): proved for ExternalCommand in U-ext-result; here a recorder with an arbitrary answer */
 static inline struct BuildValue verif_result_for_output(struct Command *c, struct Node *n, struct BuildValue v) { g_rfo_calls++; g_rfo_node = n; g_rfo_value_src = v.g_src; struct BuildValue r; r.kind = g_rfo_kind; r.g_n = 0; return r; }
 /* Target::getNodes()[i]: node i of the target, named by its position */
@@ -25,3 +26,14 @@ unsigned g_prior_calls, g_provide_calls; const void *g_fwd_src; uintptr_t g_fwd_
 static inline void *verif_outer_bs(void *impl) { return impl; }
 static inline void verif_cmd_prior(struct Command *c, void *system, struct TaskInterface ti, struct BuildValue v) { g_prior_calls++; g_fwd_src = v.g_src; }
 static inline void verif_cmd_provide(struct Command *c, void *system, struct TaskInterface ti, uintptr_t id, struct valuedata key, struct BuildValue v) { g_provide_calls++; g_fwd_src = v.g_src; g_fwd_id = id; }
+/* produced directory node: the node's name, the tree-signature key, the request log */
+_Bool g_name_slash, g_name_is_root;
+static inline strref node_name(const struct Node *n) { return n->g_name; }
+static inline _Bool name_endswith(const strref *s, const char *suffix) { return g_name_slash; }
+static inline _Bool name_ne_root(strref s, const char *lit) { return !g_name_is_root; }
+static inline strref name_substr(const strref *s, size_t from, size_t n) { strref r; r.ptr = s->ptr; r.len = n; return r; }
+struct StringList { char _e; };
+static inline struct StringList strlist_empty(void) { struct StringList l; return l; }
+static inline struct valuedata key_treesig_v(strref path, const struct StringList *filters) { struct valuedata k; k.kind = -2; k.src = path.ptr; return k; }
+unsigned g_nreq; uintptr_t g_req_id0; int g_req_kind0; const void *g_req_path0;
+static inline void ti_request_v(struct TaskInterface *ti, struct valuedata k, uintptr_t id) { g_nreq++; g_req_id0 = id; g_req_kind0 = k.kind; g_req_path0 = k.src; }
